@@ -116,7 +116,7 @@ theorem inv_exec {s : State} (hI : Inv s) {t : Nat} {pc : PC} (ht : s.threads[t]
   | c9 id b =>
     by_cases h : s.sh.words.getD (bucketOffset id) 0 = b
     · rw [exec_eq_of_noret s t _ _
-        { s.sh with words := s.sh.words.set (bucketOffset id) (b &&& ~~~ mask id) } .c11 none
+        { s.sh with words := s.sh.words.set (bucketOffset id) (b &&& ~~~ mask id) } (.c11 id) none
         (by simp only [tstep, h, ↓reduceIte]) (Or.inl rfl)]
       exact ⟨inv_release hI ht h, trivial⟩
     · rw [exec_eq_of_noret s t _ _ s.sh (.c10 id) none (by simp only [tstep, h, ↓reduceIte]) (Or.inl rfl)]
@@ -129,7 +129,7 @@ theorem inv_exec {s : State} (hI : Inv s) {t : Nat} {pc : PC} (ht : s.threads[t]
       rw [and_mask_ne_mask, ← hb, a3']; simp
     rw [exec_eq_of_noret s t _ _ s.sh (.c9 id b) none (by simp only [tstep, hb, hbit, ↓reduceIte]) (Or.inl rfl)]
     exact ⟨inv_local hI ht _ rfl rfl rfl rfl trivial, trivial⟩
-  | c11 =>
+  | c11 x =>
     obtain ⟨h1, h2⟩ := inv_decrement hI ht
     rw [exec_eq_of_noret s t _ _ { s.sh with inuse := s.sh.inuse - 1 } .idle (some (.cleared true))
       (by simp only [tstep, h2, ↓reduceIte]) (by simp)]
